@@ -12,7 +12,7 @@
 (* drift  (specification/implementation mismatch) and printed at the end.  *)
 (* Many traces are concatenated in one file; an "Init" line resets.        *)
 (***************************************************************************)
-EXTENDS Core, Json, IOUtils
+EXTENDS Core, Store, Json, IOUtils
 
 TraceFile == IOEnv.TRACE_FILE
 Trace == ndJsonDeserialize(TraceFile)
@@ -42,9 +42,10 @@ VARIABLES l,        \* index of the next line
           sub,      \* submitted transaction ids -> node
           viol,     \* accumulated property violations
           drift,    \* accumulated conformance mismatches
+          pst,      \* node number -> Store.tla model of its persistent store (from StW lines)
           stats     \* counters (for vacuity control)
 
-vars == << l, D, nodes, dlv, sto, psto, rrv, meta, ref, cev, ctx, base, last, pools, lostSet, evals, fames, sub, viol, drift, stats >>
+vars == << l, D, nodes, dlv, sto, psto, rrv, meta, ref, cev, ctx, base, last, pools, lostSet, evals, fames, sub, viol, drift, pst, stats >>
 
 Line == Trace[l]
 NodeNums == DOMAIN nodes
@@ -67,7 +68,8 @@ EvRec(x) ==
 
 Bump(s, k) == [ s EXCEPT ![k] = @ + 1 ]
 Stats0 == [ lines |-> 0, syncs |-> 0, inserts |-> 0, blocks |-> 0, traces |-> 0,
-            creates |-> 0, fameDecided |-> 0, coinVotes |-> 0, skipped |-> 0 ]
+            creates |-> 0, fameDecided |-> 0, coinVotes |-> 0, skipped |-> 0,
+            stw |-> 0, str |-> 0, crashes |-> 0, boots |-> 0 ]
 
 -----------------------------------------------------------------------------
 (* Property invariants on observed state                                   *)
@@ -314,9 +316,12 @@ Inv_C09_SignsOnlyDelivered(me, dvn, o, baseIdx) ==
 -----------------------------------------------------------------------------
 (* Conformance checks: specification result = logged implementation result *)
 
+\* (r = l = -1: the event had left the implementation's cache when the driver
+\* read it back; round and lamport are not persisted, nothing was observed)
 ConfVals(h, o) ==
     \A k \in 1..Len(o.vals) :
         LET v == o.vals[k] IN
+        (v.r = -1 /\ v.l = -1) \/
         /\ v.e \in DOMAIN h.E
         /\ h.E[v.e].rnd = v.r /\ h.E[v.e].wit = v.w /\ h.E[v.e].lt = v.l
 
@@ -489,6 +494,7 @@ TInit ==
     /\ sub = EmptyFun
     /\ viol = {}
     /\ drift = {}
+    /\ pst = EmptyFun
     /\ stats = Stats0
 
 TraceReset ==
@@ -515,13 +521,21 @@ TraceReset ==
     /\ fames' = EmptyFun
     /\ sub' = EmptyFun
     /\ stats' = Bump(Bump(stats, "traces"), "lines")
+    /\ pst' = EmptyFun
     /\ UNCHANGED << viol, drift >>
 
 TraceCreate ==
     /\ Line.a = "Create"
     /\ D' = Ext(D, Line.x.id, EvRec(Line.x))
     /\ stats' = Bump(Bump(stats, "creates"), "lines")
-    /\ UNCHANGED << nodes, dlv, sto, psto, rrv, meta, cev, ctx, base, last, pools, lostSet, evals, fames, ref, sub, viol, drift >>
+    \* C11: an honest node never creates two events at the same height, crash
+    \* and restart included (only evaluated in persist mode: Byzantine puppets
+    \* of other modes fork on purpose)
+    /\ viol' = IF "mode" \in DOMAIN meta /\ meta.mode = "persist"
+                THEN AddCapped(viol, Checks("C11", "Inv_C11_NoSelfFork",
+                         ~\E id \in DOMAIN D : D[id].c = Line.x.c /\ D[id].i = Line.x.i /\ id # Line.x.id))
+                ELSE viol
+    /\ UNCHANGED << pst, nodes, dlv, sto, psto, rrv, meta, cev, ctx, base, last, pools, lostSet, evals, fames, ref, sub, drift >>
 
 TraceSubmit ==
     /\ Line.a = "Submit"
@@ -530,7 +544,7 @@ TraceSubmit ==
     /\ sub' = Ext(sub, Line.x.tx, Append(Get(sub, Line.x.tx, << >>), Line.n))
     /\ pools' = IF Line.n \in DOMAIN pools THEN [ pools EXCEPT ![Line.n] = Append(@, Line.x.tx) ] ELSE pools
     /\ stats' = Bump(stats, "lines")
-    /\ UNCHANGED << D, dlv, sto, psto, rrv, meta, cev, ctx, base, last, lostSet, evals, fames, ref, viol, drift >>
+    /\ UNCHANGED << pst, D, dlv, sto, psto, rrv, meta, cev, ctx, base, last, lostSet, evals, fames, ref, viol, drift >>
 
 \* Everything a Sync line implies, computed once (TLC caches LET values inside
 \* an operator, not inside an action).
@@ -636,7 +650,7 @@ TraceSync ==
           /\ viol' = R.viol
           /\ drift' = R.drift
           /\ stats' = R.stats
-    /\ UNCHANGED << D, sub, meta, ref, base >>
+    /\ UNCHANGED << pst, D, sub, meta, ref, base >>
 
 -----------------------------------------------------------------------------
 (* C19: rows tabulated from the real PeerSet: << n, SuperMajority, TrustCount, Len >> *)
@@ -671,14 +685,14 @@ TraceQuorum ==
           /\ viol' = AddCapped(viol, R.v)
           /\ drift' = AddCapped(drift, R.f)
           /\ stats' = [ stats EXCEPT !.lines = @ + 1, !.inserts = @ + R.n ]
-    /\ UNCHANGED << D, nodes, dlv, sto, psto, rrv, meta, cev, ctx, base, last, pools, lostSet, evals, fames, ref, sub >>
+    /\ UNCHANGED << pst, D, nodes, dlv, sto, psto, rrv, meta, cev, ctx, base, last, pools, lostSet, evals, fames, ref, sub >>
 
 TraceQuorumAccept ==
     /\ Line.a = "QuorumAccept"
     /\ LET rows == Line.x.rows IN
        /\ viol' = AddCapped(viol, Checks("C19", "Inv_C19_Accept", \A k \in 1..Len(rows) : Inv_C19_Accept(rows[k])))
        /\ stats' = [ stats EXCEPT !.lines = @ + 1, !.inserts = @ + Len(rows), !.blocks = @ + Len(rows) ]
-    /\ UNCHANGED << D, nodes, dlv, sto, psto, rrv, meta, cev, ctx, base, last, pools, lostSet, evals, fames, ref, sub, drift >>
+    /\ UNCHANGED << pst, D, nodes, dlv, sto, psto, rrv, meta, cev, ctx, base, last, pools, lostSet, evals, fames, ref, sub, drift >>
 
 -----------------------------------------------------------------------------
 (* C03: one DAG, many instances                                            *)
@@ -736,7 +750,7 @@ TraceHgInsert ==
     /\ Line.a = "HgInsert"
     /\ \E R \in { HgOutcome(Line.n, Line.x, Line.o) } :
           /\ nodes' = R.nodes /\ ref' = R.ref /\ drift' = R.drift /\ stats' = R.stats
-    /\ UNCHANGED << D, dlv, sto, psto, rrv, meta, cev, ctx, base, last, pools, lostSet, evals, fames, sub, viol >>
+    /\ UNCHANGED << pst, D, dlv, sto, psto, rrv, meta, cev, ctx, base, last, pools, lostSet, evals, fames, sub, viol >>
 
 TraceInstance ==
     /\ Line.a = "Instance"
@@ -780,7 +794,7 @@ TraceInstance ==
     /\ stats' = [ stats EXCEPT !.lines = @ + 1, !.inserts = @ + Line.x.nins,
                                !.blocks = @ + Len(Line.o.blocks),
                                !.skipped = @ + (IF Line.o.err # "" THEN 1 ELSE 0) ]
-    /\ UNCHANGED << D, nodes, dlv, sto, psto, rrv, meta, cev, ctx, base, last, pools, lostSet, evals, fames, ref, sub, drift >>
+    /\ UNCHANGED << pst, D, nodes, dlv, sto, psto, rrv, meta, cev, ctx, base, last, pools, lostSet, evals, fames, ref, sub, drift >>
 
 \* common.Median tabulated from the real code on enumerated lists
 TraceMedian ==
@@ -789,7 +803,7 @@ TraceMedian ==
        /\ viol' = AddCapped(viol, Checks("C18", "Inv_C18_MedianFunction",
                         \A k \in 1..Len(rows) : Median(AsSeq(rows[k].l)) = rows[k].m))
        /\ stats' = [ stats EXCEPT !.lines = @ + 1, !.inserts = @ + Len(rows) ]
-    /\ UNCHANGED << D, nodes, dlv, sto, psto, rrv, meta, cev, ctx, base, last, pools, lostSet, evals, fames, ref, sub, drift >>
+    /\ UNCHANGED << pst, D, nodes, dlv, sto, psto, rrv, meta, cev, ctx, base, last, pools, lostSet, evals, fames, ref, sub, drift >>
 
 -----------------------------------------------------------------------------
 (* node mode: membership                                                   *)
@@ -811,14 +825,14 @@ TraceNodeUp ==
            /\ ctx' = Ext(ctx, n, << >>)
            /\ lostSet' = lostSet \ {n}
     /\ stats' = Bump(stats, "lines")
-    /\ UNCHANGED << D, meta, ref, evals, fames, sub, viol, drift >>
+    /\ UNCHANGED << pst, D, meta, ref, evals, fames, sub, viol, drift >>
 
 \* core.addInternalTransaction (join request served, or leave)
 TraceAddItx ==
     /\ Line.a = "AddItx"
     /\ nodes' = [ nodes EXCEPT ![Line.n].itxpool = Append(@, Line.x.itx) ]
     /\ stats' = Bump(stats, "lines")
-    /\ UNCHANGED << D, dlv, sto, psto, rrv, meta, ref, cev, ctx, base, last, pools, lostSet, evals, fames, sub, viol, drift >>
+    /\ UNCHANGED << pst, D, dlv, sto, psto, rrv, meta, ref, cev, ctx, base, last, pools, lostSet, evals, fames, sub, viol, drift >>
 
 \* a join / leave call returned
 TraceOpDone ==
@@ -828,7 +842,7 @@ TraceOpDone ==
                                     ![Line.n].h.removedRound = -1 ]
                 ELSE nodes
     /\ stats' = Bump(stats, "lines")
-    /\ UNCHANGED << D, dlv, sto, psto, rrv, meta, ref, cev, ctx, base, last, pools, lostSet, evals, fames, sub, viol, drift >>
+    /\ UNCHANGED << pst, D, dlv, sto, psto, rrv, meta, ref, cev, ctx, base, last, pools, lostSet, evals, fames, sub, viol, drift >>
 
 -----------------------------------------------------------------------------
 (* C07: an insertion attempt (tampered or valid) offered to an honest core *)
@@ -852,7 +866,7 @@ TraceOffer ==
        IN  viol' = AddCapped(viol, V)
     /\ stats' = [ stats EXCEPT !.lines = @ + 1, !.inserts = @ + 1,
                                !.skipped = @ + (IF Line.o.accepted THEN 0 ELSE 1) ]
-    /\ UNCHANGED << D, nodes, dlv, sto, psto, rrv, meta, cev, ctx, base, last, pools, lostSet, evals, fames, ref, sub, drift >>
+    /\ UNCHANGED << pst, D, nodes, dlv, sto, psto, rrv, meta, cev, ctx, base, last, pools, lostSet, evals, fames, ref, sub, drift >>
 
 -----------------------------------------------------------------------------
 (* C06: after the fair all-pairs phase every live node is idle and every   *)
@@ -871,7 +885,7 @@ TraceLiveCheck ==
                 \cup Checks("C06", "Inv_C06_NoLoadedEventPending", \A k \in 1..Len(o.loaded) : o.loaded[k] = 0)
        IN  viol' = AddCapped(viol, V)
     /\ stats' = [ stats EXCEPT !.lines = @ + 1, !.fameDecided = @ + Line.x.cycles ]
-    /\ UNCHANGED << D, nodes, dlv, sto, psto, rrv, meta, cev, ctx, base, last, pools, lostSet, evals, fames, ref, sub, drift >>
+    /\ UNCHANGED << pst, D, nodes, dlv, sto, psto, rrv, meta, cev, ctx, base, last, pools, lostSet, evals, fames, ref, sub, drift >>
 
 -----------------------------------------------------------------------------
 (* C12 / C13 / C14: a fast-forward response offered to a node               *)
@@ -933,9 +947,9 @@ TraceFFOffer ==
                   /\ cev' = [ cev EXCEPT ![Line.n] = {} ]
                   /\ ctx' = [ ctx EXCEPT ![Line.n] = << >> ]
              ELSE /\ drift' = R.drift
-                  /\ UNCHANGED << nodes, rrv, base, last, dlv, sto, psto, pools, cev, ctx >>
+                  /\ UNCHANGED << pst, nodes, rrv, base, last, dlv, sto, psto, pools, cev, ctx >>
     /\ stats' = [ stats EXCEPT !.lines = @ + 1, !.coinVotes = @ + (IF Line.o.adopted THEN 1 ELSE 0) ]
-    /\ UNCHANGED << D, meta, ref, lostSet, evals, fames, sub >>
+    /\ UNCHANGED << pst, D, meta, ref, lostSet, evals, fames, sub >>
 
 -----------------------------------------------------------------------------
 (* C08: a hostile message delivered to a node; C17: requests to a node that *)
@@ -952,7 +966,7 @@ TraceRpc ==
                               o.panicked \/ o.blocked \/ (o.still_pulls /\ o.still_accepts_push /\ o.sigpool_ok))
        IN  viol' = AddCapped(viol, V)
     /\ stats' = [ stats EXCEPT !.lines = @ + 1, !.inserts = @ + 1 ]
-    /\ UNCHANGED << D, nodes, dlv, sto, psto, rrv, meta, cev, ctx, base, last, pools, lostSet, evals, fames, ref, sub, drift >>
+    /\ UNCHANGED << pst, D, nodes, dlv, sto, psto, rrv, meta, cev, ctx, base, last, pools, lostSet, evals, fames, ref, sub, drift >>
 
 TraceStateRpc ==
     /\ Line.a = "StateRpc"
@@ -966,7 +980,7 @@ TraceStateRpc ==
                 \cup ChecksD("C08", "Inv_C08_NoPanic", d, ~o.panicked)
        IN  viol' = AddCapped(viol, V)
     /\ stats' = [ stats EXCEPT !.lines = @ + 1, !.inserts = @ + 1 ]
-    /\ UNCHANGED << D, nodes, dlv, sto, psto, rrv, meta, cev, ctx, base, last, pools, lostSet, evals, fames, ref, sub, drift >>
+    /\ UNCHANGED << pst, D, nodes, dlv, sto, psto, rrv, meta, cev, ctx, base, last, pools, lostSet, evals, fames, ref, sub, drift >>
 
 \* node.checkSuspend at a heartbeat: suspended iff the undetermined events
 \* created since the node started exceed limit x validators, or the node has
@@ -981,7 +995,7 @@ TraceHeartbeat ==
                        o.before = "Babbling" => ((o.after = "Suspended") <=> (tooMany \/ evicted)))
        IN  viol' = AddCapped(viol, V)
     /\ stats' = [ stats EXCEPT !.lines = @ + 1, !.fameDecided = @ + (IF Line.o.after = "Suspended" /\ Line.o.before = "Babbling" THEN 1 ELSE 0) ]
-    /\ UNCHANGED << D, nodes, dlv, sto, psto, rrv, meta, cev, ctx, base, last, pools, lostSet, evals, fames, ref, sub, drift >>
+    /\ UNCHANGED << pst, D, nodes, dlv, sto, psto, rrv, meta, cev, ctx, base, last, pools, lostSet, evals, fames, ref, sub, drift >>
 
 \* C08: byte streams written to the gossip port of a real node behind the real
 \* TCP transport (one framing class per line)
@@ -993,13 +1007,136 @@ TraceBytes ==
                 \cup ChecksD("C08", "Inv_C08_StillServes", "bytes:" \o x.class, o.infra \/ o.crashed \/ o.served_after = x.streams)
        IN  viol' = AddCapped(viol, V)
     /\ stats' = [ stats EXCEPT !.lines = @ + 1, !.inserts = @ + Line.x.streams ]
-    /\ UNCHANGED << D, nodes, dlv, sto, psto, rrv, meta, cev, ctx, base, last, pools, lostSet, evals, fames, ref, sub, drift >>
+    /\ UNCHANGED << pst, D, nodes, dlv, sto, psto, rrv, meta, cev, ctx, base, last, pools, lostSet, evals, fames, ref, sub, drift >>
+
+-----------------------------------------------------------------------------
+(* persist mode (C11, C16): store writes / reads, crash, bootstrap          *)
+
+\* completed writes of one step, in order (Store.tla keeps the model)
+TraceStW ==
+    /\ Line.a = "StW"
+    /\ pst' = Ext(pst, Line.n, PWriteRows(Get(pst, Line.n, PS0), Line.x.rows, 1))
+    /\ stats' = [ stats EXCEPT !.lines = @ + 1, !.stw = @ + Len(Line.x.rows) ]
+    /\ UNCHANGED << D, nodes, dlv, sto, psto, rrv, meta, cev, ctx, base, last, pools, lostSet, evals, fames, ref, sub, viol, drift >>
+
+\* the store read back: every value equals the last one written, every
+\* listing is exact
+StROutcome(n, x, o) ==
+    LET m == Get(pst, n, PS0)
+        badR == { k \in 1..Len(o.rows) : ~PReadOK(m, o.rows[k]) }
+        badL == { k \in 1..Len(o.lists) : ~PListOK(m, o.lists[k]) }
+        dR == IF badR = {} THEN "" ELSE LET r == o.rows[MinOfSet(badR, 0)] IN x.phase \o ":" \o r.path \o ":" \o r.key \o ":" \o r.got
+        dL == IF badL = {} THEN "" ELSE LET q == o.lists[MinOfSet(badL, 0)] IN x.phase \o ":" \o q.path \o ":" \o q.what
+    IN  [ V |-> ChecksD("C16", "Inv_C16_ReadMatchesModel", dR, badR = {})
+                \cup ChecksD("C16", "Inv_C16_ListingExact", dL, badL = {}),
+          F |-> Checks("-", "Conf_Store_IndexOrder", m.gaps = 0),
+          nr |-> Len(o.rows) + Len(o.lists) ]
+
+TraceStR ==
+    /\ Line.a = "StR"
+    /\ \E R \in { StROutcome(Line.n, Line.x, Line.o) } :
+          /\ viol' = AddCapped(viol, R.V)
+          /\ drift' = AddCapped(drift, R.F)
+          /\ stats' = [ stats EXCEPT !.lines = @ + 1, !.str = @ + R.nr ]
+    /\ UNCHANGED << pst, D, nodes, dlv, sto, psto, rrv, meta, cev, ctx, base, last, pools, lostSet, evals, fames, ref, sub >>
+
+\* the node is killed (or shut down): what the interrupted step delivered
+\* before the kill counts as delivered
+TraceCrash ==
+    /\ Line.a = "Crash"
+    /\ LET n == Line.n
+           dlv1 == [ dlv EXCEPT ![n] = @ \o AsSeq(Line.o.blocks) ]
+           from == Len(dlv[n]) + 1
+       IN  /\ dlv' = dlv1
+           /\ viol' = AddCapped(viol,
+                 Checks("C11", "Inv_C11_AgreementAtCrash", Line.o.blocks = << >> \/ Inv_C01_Agreement(dlv1, lostSet, n, from))
+                 \cup Checks("C11", "Inv_C11_ConsecutiveAtCrash", Line.o.blocks = << >> \/ Inv_C02_Consecutive(dlv1[n], from, base[n].idx)))
+    /\ stats' = [ stats EXCEPT !.lines = @ + 1, !.crashes = @ + (IF Line.o.clean THEN 0 ELSE 1) ]
+    /\ UNCHANGED << pst, D, nodes, sto, psto, rrv, meta, cev, ctx, base, last, pools, lostSet, evals, fames, ref, sub, drift >>
+
+\* hashgraph.Bootstrap: every event of the database, in topological order,
+\* through the normal insertion + consensus path; the signature pool is
+\* processed after every batch of 100 and at the end.  core.setHeadAndSeq.
+RECURSIVE BootLoop(_, _, _, _)
+BootLoop(DD, h, es, k) ==
+    IF k > Len(es) THEN ProcessSigPool(h)
+    ELSE LET h1 == InsertAndRun(DD, h, es[k])
+             h2 == IF k % 100 = 0 THEN ProcessSigPool(h1) ELSE h1
+         IN  BootLoop(DD, h2, es, k + 1)
+
+BootNode(DD, gen, me, es) ==
+    LET h == BootLoop(DD, InitHG(gen, me), es, 1)
+        hd == LastFrom(h, me)
+    IN  [ InitCore(gen, me) EXCEPT !.h = h, !.head = hd, !.seq = IF hd = NoEv THEN -1 ELSE DD[hd].i ]
+
+BootOutcome(n, x, o) ==
+    LET es == AsSeq(x.order)
+        eset == SeqToSet(es)
+        me == x.me
+        nd1 == BootNode(D, AsSeq(x.genesis), me, es)
+        h1 == nd1.h
+        old == dlv[n]
+        re == AsSeq(o.blocks)
+        dlv1 == [ dlv EXCEPT ![n] = re ]
+        before == DOMAIN nodes[n].h.E
+        mine == { e \in eset : D[e].c = me }
+        top == MaxOfSet({ D[e].i : e \in mine }, -1)
+        rrNew == Strict([ e \in { o.rr[k].e : k \in 1..Len(o.rr) } |->
+                           o.rr[CHOOSE k \in 1..Len(o.rr) : o.rr[k].e = e].rr ])
+        knownOK == \A k \in 1..Len(o.known) :
+                      o.known[k].i = MaxOfSet({ D[e].i : e \in { f \in eset : D[f].c = o.known[k].c } }, -1)
+        V == Checks("C11", "Inv_C11_BootstrapSucceeds", ~o.err)
+             \cup Checks("C11", "Inv_C11_Redelivery",
+                         /\ Len(re) >= Len(old)
+                         /\ \A k \in 1..MinI(Len(old), Len(re)) :
+                               BodyFields(re[k]) = BodyFields(old[k]) /\ re[k].evs = old[k].evs)
+             \cup Checks("C11", "Inv_C11_KnowsCompletedInsertions", before \subseteq eset)
+             \cup Checks("C11", "Inv_C11_KnowsOnlyWritten", o.nev = Len(es) /\ knownOK)
+             \cup Checks("C11", "Inv_C11_HeadRestored",
+                         /\ o.seq = top /\ o.seq >= x.emitted
+                         /\ IF top = -1 THEN o.head = "" ELSE (o.head \in mine /\ D[o.head].i = top))
+             \cup Checks("C11", "Inv_C11_AgreementAfterRestart", Inv_C01_Agreement(dlv1, lostSet, n, 1))
+             \cup Checks("C11", "Inv_C11_ConsecutiveAfterRestart", Inv_C02_Consecutive(re, 1, base[n].idx))
+             \cup Checks("C02", "Inv_C02_StoreKeepsDelivered", Inv_C02_StoreKeepsDelivered(re, AsSeq(o.store)))
+             \cup Checks("C09", "Inv_C09_RecordedSigsValid", Inv_C09_RecordedSigsValid(o))
+        \* (events reloaded from the database carry no round / lamport: reported negative)
+        ov == [ vals |-> SelectSeq(AsSeq(o.vals), LAMBDA v : v.r >= 0 /\ v.l >= 0) ]
+        F == Checks("-", "Conf_Boot_Vals", ConfVals(h1, ov))
+             \cup Checks("-", "Conf_Boot_RR", ConfRR(h1, o))
+             \cup Checks("-", "Conf_Boot_Rounds", ConfRounds(h1, o))
+             \cup Checks("-", "Conf_Boot_Blocks", ConfBlocks(h1.out, o))
+             \cup Checks("-", "Conf_Boot_Known", ConfKnown(h1, o))
+             \cup Checks("-", "Conf_Boot_Core", ConfCore(nd1, o))
+             \cup Checks("-", "Conf_Boot_Scalars", ConfScalars(h1, o))
+             \cup Checks("-", "Conf_Boot_Anchor", ConfAnchor(h1, o))
+             \cup Checks("-", "Conf_Boot_PS", ConfPS(h1, o))
+    IN  [ nd |-> nd1, dlv |-> dlv1, rr |-> rrNew, V |-> V, F |-> F,
+          cev |-> UNION { SeqToSet(re[k].evs) : k \in 1..Len(re) },
+          ctx |-> BagAdd(<< >>, Flatten([ k \in 1..Len(re) |-> AsSeq(re[k].txs) ])) ]
+
+TraceBootstrap ==
+    /\ Line.a = "Bootstrap"
+    /\ \E R \in { BootOutcome(Line.n, Line.x, Line.o) } :
+        LET n == Line.n IN
+          /\ nodes' = [ nodes EXCEPT ![n] = R.nd ]
+          /\ dlv' = R.dlv
+          /\ sto' = [ sto EXCEPT ![n] = AsSeq(Line.o.store) ]
+          /\ psto' = [ psto EXCEPT ![n] = << >> ]
+          /\ rrv' = [ rrv EXCEPT ![n] = R.rr ]
+          /\ pools' = [ pools EXCEPT ![n] = << >> ]
+          /\ last' = [ last EXCEPT ![n] = [ lcr |-> Line.o.lcr, ps |-> PSTable(Line.o.ps), anchor |-> Line.o.anchor ] ]
+          /\ cev' = [ cev EXCEPT ![n] = R.cev ]
+          /\ ctx' = [ ctx EXCEPT ![n] = R.ctx ]
+          /\ viol' = AddCapped(viol, R.V)
+          /\ drift' = AddCapped(drift, R.F)
+    /\ stats' = [ stats EXCEPT !.lines = @ + 1, !.boots = @ + 1, !.blocks = @ + Len(Line.o.blocks) ]
+    /\ UNCHANGED << pst, D, meta, ref, base, lostSet, evals, fames, sub >>
 
 \* lines that carry no specification step (the driver could not run the step)
 TraceNoop ==
     /\ Line.a \in { "SyncFail", "Note", "StateChange" }
     /\ stats' = Bump(stats, "lines")
-    /\ UNCHANGED << D, nodes, dlv, sto, psto, rrv, meta, cev, ctx, base, last, pools, lostSet, evals, fames, ref, sub, viol, drift >>
+    /\ UNCHANGED << pst, D, nodes, dlv, sto, psto, rrv, meta, cev, ctx, base, last, pools, lostSet, evals, fames, ref, sub, viol, drift >>
 
 TraceStep ==
     /\ l <= NLines
@@ -1008,6 +1145,7 @@ TraceStep ==
        \/ TraceQuorum \/ TraceQuorumAccept \/ TraceMedian \/ TraceHgInsert \/ TraceInstance
        \/ TraceNodeUp \/ TraceAddItx \/ TraceOpDone \/ TraceOffer \/ TraceLiveCheck \/ TraceFFOffer
        \/ TraceRpc \/ TraceStateRpc \/ TraceHeartbeat \/ TraceBytes
+       \/ TraceStW \/ TraceStR \/ TraceCrash \/ TraceBootstrap
 
 TraceDone ==
     /\ l = NLines + 1
@@ -1016,7 +1154,7 @@ TraceDone ==
     /\ PrintT(<< "@@DRIFT", drift >>)
     /\ PrintT(<< "@@STATS", stats >>)
     /\ PrintT(<< "@@DONE", NLines >>)
-    /\ UNCHANGED << D, nodes, dlv, sto, psto, rrv, meta, ref, cev, ctx, base, last, pools, lostSet, evals, fames, sub, viol, drift, stats >>
+    /\ UNCHANGED << pst, D, nodes, dlv, sto, psto, rrv, meta, ref, cev, ctx, base, last, pools, lostSet, evals, fames, sub, viol, drift, stats >>
 
 TNext == TraceStep \/ TraceDone
 
